@@ -169,7 +169,41 @@ func c03TypedChains(r *Run) {
 	}
 }
 
+// White space inside a string literal of a condition is part of the literal - in the head of a chain, in a later
+// member, under v-show and in a class object alike.
+func c03LiteralWhitespace(r *Run) {
+	lits := []string{"Hello  World", "Hello World", "a\tb", "a b", " lead", "trail ", "x   y", "tab\t\tx"}
+	for _, held := range lits {
+		for _, lit := range lits {
+			same := held == lit
+			q := "'" + lit + "'"
+			tpl := `<p v-if="title == ` + q + `" data-m="1">head</p><p v-else data-m="2">else</p>` +
+				`<p v-if="no" data-m="3">n</p><p v-else-if="title == ` + q + `" data-m="4">member</p><p v-else data-m="5">else</p>` +
+				`<i v-show="title == ` + q + `" data-m="6">s</i><b :class="{on: title == ` + q + `}" data-m="7">c</b>` +
+				`<template v-if="title != ` + q + `"><u data-m="8">ne</u></template>`
+			out, err := c03RenderAny(tpl, map[string]any{"title": held, "no": false})
+			r.Eval("literal-ws:"+held+":"+lit, true, nil)
+			r.Count("stream:literal-whitespace(oracle only)")
+			var got []string
+			for _, m := range c03Mark.FindAllStringSubmatch(out, -1) {
+				got = append(got, m[1])
+			}
+			want := []string{"2", "5", "6", "7", "8"}
+			if same {
+				want = []string{"1", "4", "6", "7"}
+			}
+			shown := !strings.Contains(strings.ReplaceAll(out, " ", ""), "display:none")
+			classOn := regexp.MustCompile(`class="[^"]*\bon\b`).MatchString(out)
+			if err != nil || strings.Join(got, ",") != strings.Join(want, ",") || shown != same || classOn != same {
+				r.Fail("a comparison with a string literal that holds white space differs between positions or from plain equality", map[string]string{"oracle": "literal-whitespace"},
+					map[string]any{"template": tpl, "title": held, "literal": lit, "equal": same, "markers": got, "expected_markers": want, "v-show_visible": shown, "class_on": classOn, "output": out, "err": fmt.Sprint(err)})
+			}
+		}
+	}
+}
+
 func runC03(r *Run) {
+	c03LiteralWhitespace(r)
 	c03TypedChains(r)
 	r.Imports = []string{"Base.Val", "Model.Chain", "Model.Truthy"}
 	r.Rule("(chain) every sibling list up to length 4 (thorough 6) over {v-if, v-else-if, v-else, plain element, whitespace text, comment, element with v-for over no item, element with v-for over two items} x every truth assignment, each placed at top level, nested, inside v-for over 1 and 2 items or on <template v-for>, as the whole content of an included component file (also included from a loop) and as supplied slot content, " +
